@@ -294,6 +294,24 @@ func genRefCase(t *rapid.T) RefCase {
 			}
 		}
 	}
+	if rapid.IntRange(0, 5).Draw(t, "prefund-create-scenario") == 0 {
+		// a frame pays into the address its next CREATE2 will produce, then creates there with an endowment; the init
+		// code reverts, or the creating frame fails afterwards and its parent carries on
+		i := rapid.IntRange(0, nf-1).Draw(t, "pc-frame")
+		salt, mode := uint64(rapid.IntRange(0, 1).Draw(t, "pc-salt")), uint64(rapid.SampledFrom([]int{0, 0, 1, 2}).Draw(t, "pc-mode"))
+		target := ethcrypto.CreateAddress2(evmasm.FrameAddr(i), common.BigToHash(new(big.Int).SetUint64(salt)), ethcrypto.Keccak256(evmasm.CreateInit(int(mode))))
+		ops := []evmasm.Op{{Kind: "send", Target: target.Hex(), Value: rapid.SampledFrom([]string{"1", "5", "1000"}).Draw(t, "pc-fund"), NoRecord: true},
+			{Kind: "create", CallOp: "CREATE2", Key: salt, Val: mode, Value: rapid.SampledFrom([]string{"0", "7", "1000"}).Draw(t, "pc-endow"), NoRecord: rapid.Bool().Draw(t, "pc-norec")}}
+		if i > 0 && rapid.Bool().Draw(t, "pc-revert") {
+			ops = append(ops, evmasm.Op{Kind: "revert"})
+			c.Prog.Frames[i].Ops = ops
+		} else {
+			c.Prog.Frames[i].Ops = append(ops, c.Prog.Frames[i].Ops...)
+		}
+		if c.Fund[i] == "0" || c.Fund[i] == "1" {
+			c.Fund[i] = "3000000000000000000"
+		}
+	}
 	ntx := rapid.IntRange(1, 3).Draw(t, "ntx")
 	for k := 0; k < ntx; k++ {
 		c.Txs = append(c.Txs, RefTx{To: rapid.IntRange(0, nf-1).Draw(t, "to") * rapid.IntRange(0, 1).Draw(t, "entry0"), Value: rapid.SampledFrom(values).Draw(t, "txvalue"),
